@@ -65,7 +65,7 @@ func BenchmarkPrint(b *testing.B) {
 }
 func BenchmarkCheckProgram(b *testing.B) {
 	p := irjs.MustParse(benchIR)
-	w := newWorker(nil, fullConfig(false), newShardedSet())
+	w := newWorker(fullConfig(false), newShardedSet())
 	n := 0
 	for i := 0; i < b.N; i++ {
 		w.programs = 0
